@@ -9,7 +9,8 @@
      event  = L [A 0] on_connection | L [A 1; A g] start | L [A 2; A g; B pkt; A now] request
             | L [A 3; A g; x; A now] thrown error | L [A 4; A g] end | L [A 5; A g] GeneratorExit | L [A 6] on_disconnection
      x      = L [A 0] handler error | L [A 1; A errcode] parse error | L [A 2] TimeoutError | L [A 3; A k] OSError | L [A 4] RuntimeError
-     outcome= L [] task returned | L [x] task raised *)
+     outcome= L [] task returned | L [x] task raised
+   input  = L [A 100; conn1; conn2] : two such connections on one server, output = L [out1; out2] *)
 From EN Require Import Lib.Bytes Lib.Sx Frame.Framer Frame.ReadUntil Frame.BufReadUntil Stream.Consumer Stream.Endpoint
   Conc.StreamServer Run.Stream.
 
@@ -61,7 +62,7 @@ Definition final_sx (f : @final (option bytes)) : sx :=
      of_nat (length (f_peer f));
      of_nat (f_now f)].
 
-Definition run (i : sx) : sx :=
+Definition run1 (i : sx) : sx :=
   match i with
   | L (A kind :: cfg :: d :: ps :: acs :: A oc :: A bufsize :: _) =>
       do dec <- mk_dec d;
@@ -85,4 +86,13 @@ Definition run (i : sx) : sx :=
       | _, _ => bad_input
       end
   | _ => bad_input
+  end.
+
+(* two connections served concurrently by one server:  L [A 100; conn1; conn2]  ->  L [out1; out2].
+   The model of a connection does not mention any other connection: the per-connection observables of a concurrent
+   run must be those of the two isolated runs. *)
+Definition run (i : sx) : sx :=
+  match i with
+  | L [A 100%Z; i1; i2] => L [run1 i1; run1 i2]
+  | _ => run1 i
   end.
